@@ -47,6 +47,7 @@ type Ledger struct {
 	only        string
 	Extra       map[string]interface{}
 	floorsApplied bool
+	importFed   map[string]bool // rules that receive imported obligations
 	claimed     map[string]bool // function keys that rules of this run rely on by role (see variant.go)
 }
 
